@@ -9,8 +9,10 @@ import vlib
 from gen import c13_features as F
 
 ID = "C13"
-PROPS = ["IsoVerif/Props/C13.lean", "IsoVerif/Props/C13Profiles.lean", "IsoVerif/Props/C13Rows.lean", "IsoVerif/Props/C13Chromosome.lean"]
-TARGETS = ["IsoVerif.Props.C13", "IsoVerif.Props.C13Profiles", "IsoVerif.Props.C13Rows", "IsoVerif.Props.C13Chromosome"]
+PROPS = ["IsoVerif/Props/C13.lean", "IsoVerif/Props/C13Profiles.lean", "IsoVerif/Props/C13Rows.lean", "IsoVerif/Props/C13Chromosome.lean",
+         "IsoVerif/Props/C13Local.lean"]
+TARGETS = ["IsoVerif.Props.C13", "IsoVerif.Props.C13Profiles", "IsoVerif.Props.C13Rows", "IsoVerif.Props.C13Chromosome",
+           "IsoVerif.Props.C13Local"]
 GEN_DEPS = ["Prims", "Strategies", "Constants", "Enums", "EventClasses", "Resolver"]
 LEVEL = "proof"
 RULE = ("model vs implementation on (a) construct_exon_profile / construct_intron_profile through the real "
@@ -283,6 +285,17 @@ class _FakeGenedb:
         return iter([g for g in self.genes if g.start <= end and g.end >= start])
 
 
+def _assigned(a, kw):
+    """mirror of the first two `continue`s of process_genic / process_intergenic (the table-driven `work` replaces those
+    functions): reference_id -1, supplementary, --no_secondary secondaries, MAPQ < --min_mapq get no record"""
+    return not (a.reference_id == -1 or a.is_supplementary or (kw.get("no_secondary") and a.is_secondary) or
+                (kw.get("min_mapq") and a.mapping_quality < kw["min_mapq"]))
+
+
+def _assigned_rids(kw):
+    return {a[4] for a in kw["alns"] if _assigned(_FakeAln(a), kw)}
+
+
 def impl_chromosome(kw):
     """one chromosome through the REAL AlignmentCollector.process / forward_alignments / process_alignments_in_region /
     get_gene_info_for_region (storages, splitting, which region the genes are asked for), the REAL MultimapResolver and the
@@ -314,7 +327,8 @@ def impl_chromosome(kw):
     objs = [_FakeAln(a) for a in kw["alns"]]
     col = AP.AlignmentCollector.__new__(AP.AlignmentCollector)
     col.chr_id = "chrF"
-    col.params = SimpleNamespace(high_memory=kw["mode"] == "memory", needs_reference=False, delta=6)
+    col.params = SimpleNamespace(high_memory=kw["mode"] == "memory", needs_reference=False, delta=6,
+                                 no_secondary=bool(kw.get("no_secondary")), min_mapq=kw.get("min_mapq", 0))
     col.bam_pairs = [(_FakeBam(objs), "fake.bam")]
     col.bam_merger = AP.BAMOnlineMerger(col.bam_pairs, "chrF", 0, 10 ** 12, multiple_iterators=kw["mode"] != "memory")
     col.alignment_stat_counter = ST.EnumStats()
@@ -331,6 +345,8 @@ def impl_chromosome(kw):
         res = []
         vis = set(gene_info.gids)
         for _, a in alignment_storage:
+            if not _assigned(a, kw):
+                continue
             h = [x for x in hits.get(a.rid, []) if x[1] in vis]
             ra = IA.BasicReadAssignment.__new__(IA.BasicReadAssignment)
             ra.assignment_id = 0
@@ -401,12 +417,25 @@ def oracle_chromosome(kw):
     if vlib.is_err(r):
         return [("crash", "chromosome feed raised: %s" % r)]
     exp = {}
+    ok = _assigned_rids(kw)
     for rid, ms in kw["marks"]:
+        if rid not in ok:
+            continue
         for g, s_, e_, v in ms:
             e = exp.setdefault((s_, e_), [0, 0])
             e[0 if v == 1 else 1] += 1
     got = {(a, b): [i, e] for a, b, i, e in r["rows"]}
     fails = []
+    # records that are never assigned need no genes: the region a (sub-)region asks the annotation for is the hull of the
+    # sub-region and of the alignments it ASSIGNS (fix 48f2521-stretch-only-over-processed; Model `procOut`)
+    by_rid = {a[4]: a for a in kw["alns"]}
+    for l in r["loads"]:
+        lo = min([l["region"][0]] + [by_rid[x][0] for x in l["rids"]])
+        hi = max([l["region"][1]] + [by_rid[x][1] - 1 for x in l["rids"]])
+        if list(l["gene_region"]) != [lo, hi]:
+            fails.append(("gene_region_overreach", "sub-region %s assigns alignments %s and asks the annotation for %s, the extent "
+                          "of the sub-region and its assigned alignments is %s" % (l["region"], l["rids"][:6], l["gene_region"], [lo, hi])))
+            break
     if got != exp:
         bad = sorted(k for k in set(got) | set(exp) if got.get(k) != exp.get(k))
         twice = [x for x in r["kept"] if x[1] > 1]
@@ -414,6 +443,207 @@ def oracle_chromosome(kw):
                       "alignments counted more than once: %s"
                       % (kw["mode"], len(bad), bad[0], got.get(bad[0]), exp.get(bad[0]), twice[:3])))
     return fails
+
+
+
+# ---- chromosome level with the REAL GeneInfo / profile constructors (closure p13local) ----
+
+def _real_gene_info(case, gene_ids):
+    """the GeneInfo `get_gene_info_for_region` builds for the loaded gene records: the real constructor path needs a gffutils
+    database; `GeneInfo.from_models` over the transcripts of exactly those genes builds the same feature lists, isoform maps
+    and property maps (as `build_loads` of the in-process level)"""
+    C, GI, LP, LC, IA = _impl()
+    isos = {g: t for g, t in case["isoforms"]}
+    models = [GI.TranscriptModel(case["chr"], t["strand"], t["tid"], t["gene"], tl(t["feats"]), GI.TranscriptModelType.known)
+              for g in gene_ids for t in isos.get(g, [])]
+    gi = GI.GeneInfo.from_models(models, case["d"]) if models else GI.GeneInfo.from_region(case["chr"], 0, 0, case["d"])
+    if models:
+        gi.exon_property_map = gi.set_feature_properties(gi.all_isoforms_exons, gi.exon_profiles)
+        gi.intron_property_map = gi.set_feature_properties(gi.all_isoforms_introns, gi.intron_profiles)
+    gi.gids = list(gene_ids)
+    return gi
+
+
+def _profiles_of(case, gi, cpc, rid):
+    r = {k: v for k, v in case["reads"]}[rid] if not isinstance(case["reads"], dict) else case["reads"][rid]
+    pinfo = SimpleNamespace(external_polya_pos=r["polya"], external_polyt_pos=r["polyt"], internal_polya_pos=-1,
+                            internal_polyt_pos=-1)
+    comb = cpc.construct_profiles(tl(r["blocks"]), pinfo, [])
+    return list(comb.read_exon_profile.gene_profile), list(comb.read_intron_profile.gene_profile)
+
+
+def impl_chromosome_profiles(kw):
+    """one chromosome through the REAL AlignmentCollector.process / forward_alignments / process_alignments_in_region /
+    get_gene_info_for_region, the REAL GeneInfo of the loaded genes (from_models + set_feature_properties), the REAL
+    CombinedProfileConstructor for every alignment, the REAL MultimapResolver and the REAL ExonCounter / IntronCounter; only the
+    assigner answers (assignment type, isoforms) come from the table of the case"""
+    C, GI, LP, LC, IA = _impl()
+    import src.alignment_processor as AP
+    import src.multimap_resolver as MR
+    import src.stats as ST
+    hits = {r: h for r, h in kw["hits"]}
+    reads = {r: v for r, v in kw["reads"]}
+    case = dict(kw, reads=reads)
+    params = _params(kw["d"], kw["abs_d"])
+    asked = []
+
+    class GIProxy:
+        def __new__(cls, gene_list, db, delta):
+            return _real_gene_info(kw, [g.id for g in gene_list])
+
+        @classmethod
+        def from_region(cls, chr_id, start, end, delta=0, chr_record=None):
+            gi = GI.GeneInfo.from_region(chr_id, start, end, delta, chr_record)
+            gi.gids = []
+            return gi
+
+    objs = [_FakeAln(a) for a in kw["alns"]]
+    col = AP.AlignmentCollector.__new__(AP.AlignmentCollector)
+    col.chr_id = kw["chr"]
+    col.params = SimpleNamespace(high_memory=kw["mode"] == "memory", needs_reference=False, delta=kw["d"],
+                                 no_secondary=bool(kw.get("no_secondary")), min_mapq=kw.get("min_mapq", 0))
+    col.bam_pairs = [(_FakeBam(objs), "fake.bam")]
+    col.bam_merger = AP.BAMOnlineMerger(col.bam_pairs, kw["chr"], 0, 10 ** 12, multiple_iterators=kw["mode"] != "memory")
+    col.alignment_stat_counter = ST.EnumStats()
+    col.genedb = _FakeGenedb(kw["genes"])
+    col.chr_record = None
+    real_get = col.get_gene_info_for_region
+
+    def get(region):
+        asked.append([region[0], region[1]])
+        return real_get(region)
+    col.get_gene_info_for_region = get
+
+    def work(alignment_storage, gene_info, region):
+        res = []
+        genic = not gene_info.empty()
+        vis = set(gene_info.gids)
+        cpc = LP.CombinedProfileConstructor(gene_info, params) if genic else None
+        for _, a in alignment_storage:
+            if not _assigned(a, kw):
+                continue
+            h = [x for x in hits.get(a.rid, []) if x[1] in vis]
+            ra = IA.BasicReadAssignment.__new__(IA.BasicReadAssignment)
+            ra.assignment_id = 0
+            ra.read_id, ra.chr_id, ra.start, ra.end = a.query_name, kw["chr"], a.reference_start, a.reference_end
+            ra.genomic_region = tuple(region)
+            ra.multimapper = a.is_secondary
+            ra.polyA_found = False
+            if not h:
+                t = IA.ReadAssignmentType.intergenic if not vis else IA.ReadAssignmentType.noninformative
+                ra.assignment_type = ra.gene_assignment_type = t
+            else:
+                ra.assignment_type = IA.ReadAssignmentType.unique if len(h) == 1 else IA.ReadAssignmentType.ambiguous
+                ra.gene_assignment_type = IA.ReadAssignmentType.unique
+            ra.penalty_score = 0.0
+            ra.isoforms = ["T%06d" % x[0] for x in h]
+            ra.genes = ["G%06d" % x[1] for x in h]
+            ra.rid = a.rid
+            ra.read_group = reads[a.rid]["group"]
+            ra.gene_info = gene_info
+            if genic:
+                ra.exon_gene_profile, ra.intron_gene_profile = _profiles_of(case, gene_info, cpc, a.rid)
+            else:
+                ra.exon_gene_profile = ra.intron_gene_profile = None
+            res.append(ra)
+        return res
+    col.process_genic = work
+    col.process_intergenic = lambda alignment_storage, region: work(alignment_storage, GIProxy.from_region(kw["chr"], region[0], region[1]), region)
+    saved = AP.GeneInfo
+    AP.GeneInfo = GIProxy
+    loads, records = [], []
+    try:
+        for gene_info, storage in col.process():
+            loads.append({"genes": list(gene_info.gids), "rids": [ra.rid for ra in storage], "region": list(storage[0].genomic_region) if storage else None})
+            records += storage
+    finally:
+        AP.GeneInfo = saved
+    for l, g in zip(loads, asked):
+        l["gene_region"] = g
+        if l["region"] is None:
+            l["region"] = g
+    by_read = {}
+    for ra in records:
+        by_read.setdefault(ra.rid, []).append(ra)
+    resolver = MR.MultimapResolver(MR.MultimapResolvingStrategy.take_best)
+    kept, feed = [], []
+    for rid in by_read:
+        out = resolver.resolve(by_read[rid])
+        evs = [ra for ra in out if ra.assignment_type != IA.ReadAssignmentType.suspended and ra.exon_gene_profile is not None]
+        kept.append([rid, len(evs)])
+        feed += evs
+    d = tempfile.mkdtemp(prefix="isoverif_c13_")
+    try:
+        ce = LC.ExonCounter(os.path.join(d, "x"), ignore_read_groups=True)
+        ci = LC.IntronCounter(os.path.join(d, "i"), ignore_read_groups=True)
+        for ra in feed:
+            ce.add_read_info(ra)
+            ci.add_read_info(ra)
+        ce.dump()
+        ci.dump()
+        _, rows_e, _ = parse_counts(ce.output_counts_file_name)
+        _, rows_i, _ = parse_counts(ci.output_counts_file_name)
+    finally:
+        shutil.rmtree(d, ignore_errors=True)
+    return {"loads": loads, "kept": kept, "exon": [[r["start"], r["end"], r["incl"], r["excl"]] for r in rows_e],
+            "intron": [[r["start"], r["end"], r["incl"], r["excl"]] for r in rows_i]}
+
+
+def whole_annotation_recount(kw):
+    """the right-hand side of `chromosome_exon_rows` / `chromosome_intron_rows` on the real constructors: every alignment of the
+    chromosome once, its profile against the GeneInfo of ALL genes of the chromosome"""
+    C, GI, LP, LC, IA = _impl()
+    reads = {r: v for r, v in kw["reads"]}
+    case = dict(kw, reads=reads)
+    gi = _real_gene_info(kw, [g[0] for g in kw["genes"]])
+    exp = {"exon": {}, "intron": {}}
+    if gi.empty():
+        return exp
+    cpc = LP.CombinedProfileConstructor(gi, _params(kw["d"], kw["abs_d"]))
+    ok = _assigned_rids(kw)
+    for a in kw["alns"]:
+        if a[4] not in ok:
+            continue
+        pe, pi = _profiles_of(case, gi, cpc, a[4])
+        for kind, prof, feats in (("exon", pe, gi.exon_profiles.features), ("intron", pi, gi.intron_profiles.features)):
+            for v, f in zip(prof, feats):
+                if v in (1, -1):
+                    e = exp[kind].setdefault(tuple(f), [0, 0])
+                    e[0 if v == 1 else 1] += 1
+    return exp
+
+
+def oracle_chromosome_profiles(kw):
+    """`chromosome_exon_rows` / `chromosome_intron_rows` on the real code: the exon / intron table of the chromosome (collector,
+    cuts, gene loading per sub-region, resolver, counters) = the recount of every alignment against the whole annotation"""
+    r = guarded(impl_chromosome_profiles, kw)
+    if vlib.is_err(r):
+        return [("crash", "chromosome feed (real profiles) raised: %s" % r)]
+    exp = whole_annotation_recount(kw)
+    fails = []
+    for kind in ("exon", "intron"):
+        got = {(a, b): [i, e] for a, b, i, e in r[kind]}
+        if got != exp[kind]:
+            bad = sorted(k for k in set(got) | set(exp[kind]) if got.get(k) != exp[kind].get(k))
+            twice = [x for x in r["kept"] if x[1] > 1]
+            fails.append(("count_mismatch", "chromosome level, real profiles (%s mode, %s table): %d features differ, e.g. %s reported "
+                          "incl/excl %s, recount against the whole annotation %s; alignments counted more than once: %s"
+                          % (kw["mode"], kind, len(bad), bad[0], got.get(bad[0]), exp[kind].get(bad[0]), twice[:3])))
+    return fails
+
+
+# `last_base_gene_witness` (Props/C13Local.lean): gB starts at the 1-based last base of read 0; alone in its cluster the read
+# never sees gB (the region asked for is (1000, 1999)), with a longer neighbour (read 1) gB is loaded and read 0 includes
+# gB's first exon 2000-2004
+LAST_BASE_CASE = {"no_secondary": False, "min_mapq": 0, "alns": [[1000, 2000, 0, 60, 0]], "genes": [[0, 1001, 1900], [1, 2000, 3000]], "hits": [[0, [[7, 0]]]],
+                  "chr": "chr1", "d": 4, "abs_d": 20, "mode": "bam", "repaired": True,
+                  "isoforms": [[0, [{"tid": "A.t1", "strand": "+", "gene": "gA", "feats": [[1001, 1200], [1801, 1900]]}]],
+                               [1, [{"tid": "B.t1", "strand": "+", "gene": "gB", "feats": [[2000, 2004], [2500, 3000]]}]]],
+                  "reads": [[0, {"blocks": [[1001, 1200], [1801, 1900], [1996, 2000]], "polya": -1, "polyt": -1, "group": "NA"}]]}
+LAST_BASE_NEIGHBOUR = dict(LAST_BASE_CASE, alns=[[1000, 2000, 0, 60, 0], [1500, 2600, 0, 60, 1]],
+                           hits=[[0, [[7, 0]]], [1, [[8, 1]]]],
+                           reads=LAST_BASE_CASE["reads"] + [[1, {"blocks": [[1501, 1900], [2500, 2600]], "polya": -1, "polyt": -1,
+                                                                "group": "NA"}]])
 
 
 def impl_effective_delta(strategy, delta):
@@ -503,6 +733,21 @@ def correspondence(ctx):
         lines.append(vlib.req("C13.chromosome", **kw))
         post.append(("chromosome", kw, guarded(impl_chromosome, kw),
                      lambda mo: any(l["region"] != l["gene_region"] for l in mo["loads"]) and len(mo["rows"]) > 0, _cmp_chromosome))
+
+    # (h) chromosome level with the REAL profile work (closure p13local): the `exonProc` / `intronProc` instances of the
+    #     chromosome model against real GeneInfo objects of the loaded genes + real CombinedProfileConstructor + both counters;
+    #     every fourth case leaves the hypotheses of the theorems (micro features), model and code must still agree
+    for i in range(90 if quick else 900):
+        case = F.chromosome_profile_case(rng, quick, small=(i % 3 == 0), micro=(i % 4 == 3))
+        kw = dict(case, mode="memory" if i % 2 else "bam", repaired=True)
+        lines.append(vlib.req("C13.chromosome_profiles", **kw))
+        post.append(("chromosome_profiles", kw, guarded(impl_chromosome_profiles, kw),
+                     lambda mo: any(l["region"] != l["gene_region"] for l in mo["loads"]) and len(mo["exon"]) + len(mo["intron"]) > 0,
+                     _cmp_chromosome_profiles))
+    for wcase in (LAST_BASE_CASE, LAST_BASE_NEIGHBOUR):
+        lines.append(vlib.req("C13.chromosome_profiles", **wcase))
+        post.append(("chromosome_profiles", wcase, guarded(impl_chromosome_profiles, wcase), lambda mo: len(mo["exon"]) > 0,
+                     _cmp_chromosome_profiles))
 
     # (e) the delta a run uses: real set_matching_options vs the model over the regenerated preset table
     for strategy in ("exact", "precise", "default", "loose", "no_such_strategy"):
@@ -610,6 +855,17 @@ def _cmp_chromosome(mo, io):
             return False
     return [list(x) for x in mo["kept"]] == [list(x) for x in io["kept"]] and \
         sorted(map(tuple, mo["rows"])) == sorted(map(tuple, io["rows"]))
+
+
+def _cmp_chromosome_profiles(mo, io):
+    if len(mo["loads"]) != len(io["loads"]):
+        return False
+    for a, b in zip(mo["loads"], io["loads"]):
+        if list(a["region"]) != list(b["region"]) or list(a["gene_region"]) != list(b["gene_region"]) or \
+                sorted(a["genes"]) != sorted(b["genes"]) or list(a["rids"]) != list(b["rids"]):
+            return False
+    return [list(x) for x in mo["kept"]] == [list(x) for x in io["kept"]] and \
+        all(sorted(map(tuple, mo[k])) == sorted(map(tuple, io[k])) for k in ("exon", "intron"))
 
 
 def _cmp_pipeline(mo, io):
@@ -1296,6 +1552,17 @@ def replay_witnesses(ctx):
         got = got.get("gene") if isinstance(got, dict) else got
         kinds = sorted({k for k, _ in oracle_profile(w["op"], kw)})
         ctx.extra["witness_replays"][w["name"]] = {"got": got, "as_proved": got == w["expect_gene"], "oracle_kinds": kinds}
+    # last_base_gene_witness (Props/C13Local.lean) is the witness of the gene query BEFORE fix_gene_query_last_base: there the read,
+    # alone in its cluster, never meets gB (no row 2000-2004) and meets it with a longer neighbour.  On the repaired code the row
+    # is what the whole annotation says in both situations.
+    alone = guarded(impl_chromosome_profiles, LAST_BASE_CASE)
+    neigh = guarded(impl_chromosome_profiles, LAST_BASE_NEIGHBOUR)
+    row = lambda r: [x for x in r["exon"] if x[0] == 2000 and x[1] == 2004] if isinstance(r, dict) and "exon" in r else r
+    whole = whole_annotation_recount(LAST_BASE_CASE)["exon"].get((2000, 2004))
+    ctx.extra["witness_replays"]["last_base_gene_repaired"] = {
+        "got": {"alone": row(alone), "with_neighbour": row(neigh), "recount_whole_annotation": whole},
+        "old_query_behaviour": row(alone) == [],
+        "as_proved": row(alone) == [[2000, 2004, 1, 0]] and row(neigh) == [[2000, 2004, 1, 1]] and whole == [1, 0]}
     for k, v in ctx.extra["witness_replays"].items():
         if not v["as_proved"]:
             ctx.notes.append("witness %s no longer reproduces on the real code: %s" % (k, v["got"]))
@@ -1323,6 +1590,10 @@ def oracle(ctx, disagreements, broken):
     for wcase in (G1_CASE, PARTIAL_CASE):
         for kind, detail in _safe_inprocess(wcase):
             _fail(ctx, kind, {"level": "inprocess", "case": wcase}, detail)
+    # 0b. the last-base input (fix_gene_query_last_base): a read whose last aligned base is a gene's first base
+    for wcase in (LAST_BASE_CASE, LAST_BASE_NEIGHBOUR):
+        for kind, detail in oracle_chromosome_profiles(wcase):
+            _fail(ctx, kind, {"level": "chromosome_profiles", "case": wcase}, detail)
     # 1. the disagreeing inputs first
     for dgr in disagreements:
         if len(ctx.failures) > 40:
@@ -1343,6 +1614,9 @@ def oracle(ctx, disagreements, broken):
         elif dgr["op"] == "chromosome":
             for kind, detail in oracle_chromosome(inp):
                 _fail(ctx, kind, {"level": "chromosome", "case": inp}, detail)
+        elif dgr["op"] == "chromosome_profiles":
+            for kind, detail in oracle_chromosome_profiles(inp):
+                _fail(ctx, kind, {"level": "chromosome_profiles", "case": inp}, detail)
         elif dgr["op"] in ("exon_profile", "intron_profile"):
             for kind, detail in oracle_profile(dgr["op"], inp):
                 _fail(ctx, kind, {"level": "profile", "op": dgr["op"], "case": inp}, detail)
@@ -1363,6 +1637,14 @@ def oracle(ctx, disagreements, broken):
         for kind, detail in oracle_chromosome(kw):
             if len(ctx.failures) < 70:
                 _fail(ctx, kind, {"level": "chromosome", "case": kw}, detail)
+    # `chromosome_exon_rows` / `chromosome_intron_rows` on the real code, inside their hypotheses (ExonHyp / IntronHyp)
+    for i in range(70 if quick else 700):
+        kw = dict(F.chromosome_profile_case(rng, quick, small=(i % 3 == 0)), mode="memory" if i % 2 else "bam", repaired=True)
+        n_cases += 1
+        ctx.count("oracle_chromosome_profiles_case")
+        for kind, detail in oracle_chromosome_profiles(kw):
+            if len(ctx.failures) < 80:
+                _fail(ctx, kind, {"level": "chromosome_profiles", "case": kw}, detail)
     for i in range(200 if quick else 2000):
         h = dict(F.history_case(rng, quick), key="coord", ignore_groups=bool(i % 2))
         n_cases += 1
@@ -1497,6 +1779,8 @@ def replay(ctx, failure):
         return any(k == failure["kind"] for k, _ in oracle_history(inp["case"]))
     if lvl == "chromosome":
         return any(k == failure["kind"] for k, _ in oracle_chromosome(inp["case"]))
+    if lvl == "chromosome_profiles":
+        return any(k == failure["kind"] for k, _ in oracle_chromosome_profiles(inp["case"]))
     if lvl == "profile":
         return any(k == failure["kind"] for k, _ in oracle_profile(inp["op"], inp["case"]))
     if lvl == "pipeline":
